@@ -302,6 +302,11 @@ class BaseKFACPreconditioner:
             # computes and only the gradient workers of the layer take part
             # in the broadcast inside the gradient worker group.
             for name, layer in self._layers.values():
+                if layer.a_factor is None or layer.g_factor is None:
+                    # State saved before the first factor update: there is
+                    # nothing to invert yet. The second-order data will be
+                    # computed in the first step.
+                    continue
                 if get_rank() == self._assignment.inv_worker(name, 'A'):
                     layer.compute_a_inv(damping=self.damping)
                 if (
